@@ -79,6 +79,13 @@ SEPARATORS = [";", "; ", ";\n", ";;", "; ;", " ", "\n", ";--\n", ";/**/", " ;\t"
 # SQLite variable tokens: the parenthesised (Tcl) form swallows quote and comment characters
 VARIABLES = ["$a(')", "@a(')", ":a(\")", "#a(`)", "$a([)", "$a(--)", "$a(/*)", "$a::b(')", "$a", ":a", "@a", "?1", "?",
              "$a(x)", "$(')", "$a( ')", "$a('", "$1(')", "@1a(\")"]
+# round seven (seeded change C16v: the identifier class of the variable guard narrowed to Python's \\w): SQLite takes every byte
+# >= 0x80 for an identifier character, so one representative of each Unicode class - letters, marks, digits, punctuation,
+# symbols, separators, format and control characters, the ends of the planes - alone, behind and in front of an ASCII letter,
+# behind every sigil, with the two quote openers that hide most
+NAME_CHARS = ["\xe9", "\xdf", "\u4e00", "\u0301", "\u0663", "\u20ac", "\xd7", "\u2013", "\xb0", "\xa7", "\x80", "\x9f", "\xa0", "\u200b", "\u2028",
+              "\ufeff", "\ud7ff", "\ue000", "\ufffd", "\U0001f600", "\U0010ffff", "\xaa", "\xb2", "\u2160"]
+VARIABLES_WIDE = [sig + name + "(" + op + ")" for sig in "$@:#" for ch in NAME_CHARS for name in (ch, "a" + ch, ch + "a") for op in ("'", '"')]
 # closers that re-balance what a variable token hid from the stripper
 CLOSERS = {"'": "--')", '"': '--")', "`": "--`)", "[": "--])", "--": "", "/*": "--*/)"}
 BLOBS = ["x'ab'", "X'ABCD'", "x'ab''cd'", "x'zz'", "x'a'", "x'ab", "x''"]
@@ -168,6 +175,10 @@ def systematic(rng: random.Random):
         out.append(Case([f"SELECT {v}, 1; DELETE FROM t; {closer}"], "variable"))
         out.append(Case([f"SELECT {v}"], "variable"))
         out.append(Case([f"SELECT 1 WHERE 1 = {v}; DROP TABLE u {closer}"], "variable"))
+    for v in VARIABLES_WIDE:
+        closer = CLOSERS["'" if v.endswith("')") else '"']
+        out.append(Case([f"SELECT {v}, 1; DELETE FROM t; {closer}"], "variable-wide"))
+        out.append(Case([f"SELECT {v} ; DROP TABLE u; {closer}"], "variable-wide"))
     for bl in BLOBS:
         out.append(Case([f"SELECT {bl}"], "blob"))
         out.append(Case([f"SELECT {bl}; DELETE FROM t; --'"], "blob"))
